@@ -1723,6 +1723,30 @@ theorem released_plus_remaining_perm [DecidableEq κ] [DecidableEq α] (h : Hook
     exact aux_tagK_perm (aux_tlKeyedMerge_perm hh)
 
 
+
+/-! ### F36: the unconditional form of the clause is refuted by the code that exists -/
+
+/-- "every tick the scheduler may run completes `run_hooks` with a release" fails: a tick made of a
+batch hook with pending items and a `PassthroughSingletonHook` (snapshot of a top-level commutative
+fold) whose buffer is empty — the state after that tick ran once — is runnable (`SimTick::can_run`),
+its hooks are idle, and `run_hooks` panics for *every* tape (the passthrough hook records no
+decision; `release_decision` then panics).  Known finding F36; `runHooks_some_nontrivial` above is the
+clause for the runs that complete. -/
+theorem runHooks_runnable_tick_panics_refuted :
+    let hs : List (Hook Nat Nat) := [.streamTotal [20] none, .passthrough [] none]
+    tickCanRun hs = true ∧ (∀ h ∈ hs, h.cur = none) ∧ ∀ d, runHooks hs d = none := by
+  refine ⟨by decide, by decide, ?_⟩
+  intro d
+  simp only [runHooks, runPass1, Hook.cur, relNonempty, Option.map_none, Hook.canNT, List.isEmpty_cons,
+    Bool.not_false, Bool.not_true, Bool.false_eq_true, ↓reduceIte, List.isEmpty_nil, Hook.auto, passthroughAuto,
+    List.getLast?_nil, List.length_cons, List.length_nil, Nat.zero_add, Nat.reduceAdd, Nat.add_one_sub_one]
+  simp only [runPass2, Hook.cur, relNonempty, Option.map_none, Bool.not_false, BEq.rfl, Bool.and_self, Hook.auto]
+  cases hst : streamTotalAuto [20] d true with
+  | none => simp
+  | some r =>
+    obtain ⟨rel, q', nt, d1⟩ := r
+    simp [Hook.release, passthroughAuto]
+
 /-! ### non-vacuity: concrete instances of the hypotheses above -/
 
 example : keyedTotalAuto [(7, [1, 2]), (9, [3])] ⟨[1, 1], []⟩ false
